@@ -2016,6 +2016,8 @@ func (f *formatter) NameName(n *ast.Name) {
 			separatorTkns[i] = f.newToken(token.T_NS_SEPARATOR, []byte("\\"))
 		}
 	}
+
+	n.SeparatorTkns = separatorTkns
 }
 
 func (f *formatter) NameFullyQualified(n *ast.NameFullyQualified) {
@@ -2029,6 +2031,8 @@ func (f *formatter) NameFullyQualified(n *ast.NameFullyQualified) {
 			separatorTkns[i] = f.newToken(token.T_NS_SEPARATOR, []byte("\\"))
 		}
 	}
+
+	n.SeparatorTkns = separatorTkns
 }
 
 func (f *formatter) NameRelative(n *ast.NameRelative) {
@@ -2043,6 +2047,8 @@ func (f *formatter) NameRelative(n *ast.NameRelative) {
 			separatorTkns[i] = f.newToken(token.T_NS_SEPARATOR, []byte("\\"))
 		}
 	}
+
+	n.SeparatorTkns = separatorTkns
 }
 
 func (f *formatter) NameNamePart(n *ast.NamePart) {
